@@ -16,7 +16,10 @@
 (*         spelling : "bound" | "bounds",                                  *)
 (*         split : BOOLEAN  the literal's attribute comes first and the    *)
 (*                          bound() attribute second, or the reverse,      *)
-(*         uses : BOOLEAN   the literal's argument needs the predicate]    *)
+(*         uses : BOOLEAN   the literal's argument needs the predicate,     *)
+(*         lit  : BOOLEAN   the attributed struct / variant HAS a literal;  *)
+(*                          without one it is a delegated single field or   *)
+(*                          (Display) a unit variant printing its name]     *)
 (* Predicates are strings "P: Tr".                                         *)
 (***************************************************************************)
 EXTENDS Naturals, Sequences, FiniteSets, TLC
@@ -25,11 +28,17 @@ EXTENDS Naturals, Sequences, FiniteSets, TLC
 WellFormed(c) ==
     /\ (c.kind = "struct" => c.bpos = "container" /\ c.other = "none")
     /\ (c.D = "Debug" => c.bpos = "container")
+    \* without a literal: nothing can use the predicate; exactly one field (delegation) or a Display unit variant
+    /\ (~c.lit => ~c.uses /\ (c.shape = "one" \/ (c.shape = "unit" /\ c.D = "Display" /\ c.kind = "enum")))
+    /\ (~c.lit /\ c.D = "Debug" => c.kind = "struct")
+    \* (a struct without a literal has its one field only: the predicate is about that field's parameter, T)
+    /\ (~c.lit /\ c.kind = "struct" => c.gf)
     /\ (c.shape = "unit" => ~c.gf)
 
-\* the contract
+\* the contract (a delegated field is formatted under the derived trait: the same inferred bound)
 Inferred(c)  == (IF c.gf THEN {"T: " \o c.D} ELSE {}) \cup (IF c.other = "generic" THEN {"U: " \o c.D} ELSE {})
-Explicit(c)  == (IF c.bpos \in {"container", "both"} THEN {"Q: Mk"} ELSE {})
+QSubj(c)     == IF c.kind = "struct" /\ ~c.lit THEN "T" ELSE "Q"
+Explicit(c)  == (IF c.bpos \in {"container", "both"} THEN {QSubj(c) \o ": Mk"} ELSE {})
                 \cup (IF c.bpos \in {"variant", "both"} THEN {"R: Mk"} ELSE {})
 DocPreds(c)  == Inferred(c) \cup Explicit(c)
 
@@ -38,11 +47,11 @@ DocPreds(c)  == Inferred(c) \cup Explicit(c)
 \* of it that returns early for a struct / variant without generic fields (a seeded change): explicit bounds are lost.
 ImplPreds(c, guardOnGenerics) ==
     Inferred(c)
-    \cup (IF c.bpos \in {"container", "both"} /\ ~(guardOnGenerics /\ c.kind = "struct" /\ ~c.gf) THEN {"Q: Mk"} ELSE {})
+    \cup (IF c.bpos \in {"container", "both"} /\ ~(guardOnGenerics /\ c.kind = "struct" /\ ~c.gf) THEN {QSubj(c) \o ": Mk"} ELSE {})
     \cup (IF c.bpos \in {"variant", "both"} /\ ~(guardOnGenerics /\ ~c.gf) THEN {"R: Mk"} ELSE {})
 
 Agree(c) == ImplPreds(c, FALSE) = DocPreds(c)
 \* the guarded variant is told apart (the law is not vacuous)
 Sensitive == \E c \in [D : {"Display"}, kind : {"enum"}, bpos : {"variant"}, gf : {FALSE}, shape : {"one"}, other : {"none"},
-                       spelling : {"bound"}, split : {TRUE}, uses : {TRUE}] : ImplPreds(c, TRUE) # DocPreds(c)
+                       spelling : {"bound"}, split : {TRUE}, uses : {TRUE}, lit : {TRUE}] : ImplPreds(c, TRUE) # DocPreds(c)
 =============================================================================
